@@ -263,7 +263,9 @@ def hdd_chain(draw, tier):
                 images.append({"guid": g, "type": "Compressed", "hds": hs})
         storages.append({"start": start, "end": start + size_sectors, "images": images})
         start += size_sectors
-    path_style = draw(st.sampled_from(["relative", "relative", "absolute", "moved-same", "moved-sibling", "moved-pvm", "missing"]))
+    path_style = draw(st.sampled_from(["relative", "relative", "absolute", "moved-same", "moved-sibling", "moved-pvm", "missing", "dangling"]))
+    if path_style == "dangling" and depth < 2:
+        path_style = "relative"
     return {"family": "hdd", "storages": storages, "chain": chain, "side": side, "write_top_guid": draw(st.booleans()),
             "shuffle": draw(st.booleans()), "path_style": path_style, "size": start * 512, "unit": 512 * 16}
 
@@ -595,7 +597,7 @@ def run_hdd(spec, out):
         recorded_root = "/Users/someone/Parallels/orig.pvm/orig.hdd"
         file_dir = {"relative": root, "absolute": root, "moved-same": root,
                     "moved-sibling": os.path.join(d, "vm.pvm", "orig.hdd"),
-                    "moved-pvm": os.path.join(d, "orig.pvm", "orig.hdd"), "missing": root}[style]
+                    "moved-pvm": os.path.join(d, "orig.pvm", "orig.hdd"), "missing": root, "dangling": root}[style]
         os.makedirs(file_dir, exist_ok=True)
         chain = spec["chain"]
         all_shots = chain + ([spec["side"]] if spec["side"] else [])
@@ -640,6 +642,10 @@ def run_hdd(spec, out):
         shots = [{"guid": g, "parent": chain[i - 1] if i else bhdd.NULL_GUID} for i, g in enumerate(chain)]
         if spec["side"]:
             shots.append({"guid": spec["side"], "parent": chain[0]})
+        if style == "dangling":
+            # the Shot entry of a lower snapshot is gone while the one above still names it as its parent: unresolvable
+            drop = chain[(len(chain) - 2) * (spec["size"] // 512 % 2)]
+            shots = [sh for sh in shots if sh["guid"] != drop]
         top = chain[-1]
         write_top = spec["write_top_guid"] or top != bhdd.DEFAULT_TOP
         desc = {"disk_size": spec["size"] // 512, "storages": desc_storages, "shots": shots, "top_guid": top if write_top else None}
@@ -655,12 +661,14 @@ def run_hdd(spec, out):
         targets = [(None, chain)] + [(g, chain[: i + 1]) for i, g in enumerate(chain)]
         if spec["side"]:
             targets.append((spec["side"], [chain[0], spec["side"]]))
-        if style == "missing":
+        if style in ("missing", "dangling"):
             out.nontrivial = True
             out.cls("must-raise")
             stream, err = lib(hdd.open)
             if err is None:
-                out.fail("accepted|hdd-missing-image", "HDD.open() succeeded although an image file of the chain is missing")
+                out.fail("accepted|hdd-missing-image" if style == "missing" else "accepted|hdd-dangling-parent",
+                         "HDD.open() succeeded although " + ("an image file of the chain is missing" if style == "missing" else
+                                                             "a snapshot's ParentGUID names a snapshot the descriptor does not list"))
             return
         for guid, sub in targets:
             stream, err = lib(hdd.open, guid) if guid else lib(hdd.open)
